@@ -8,7 +8,7 @@ HOOKS = {
 ENGINES = [
     {"name": "SCHED", "path": "/verif/amc/shim/vsched + /verif/amc/explore + /verif/amc/instr", "serves_properties": ["C04"],
      "kind_free_text": "stateless model checking: source instrumenter (go build -overlay) turns every sync/atomic/go/channel operation into a schedule point of a cooperative scheduler running inside a testing/synctest bubble; DFS over choice lists with iterative deviation bounding, causal zero-cost continuation, conflict-based point reduction, replayable schedules"},
-    {"name": "SEQ", "path": "/verif/amc/kit", "serves_properties": ["C01", "C02", "C03", "C05", "C07"],
+    {"name": "SEQ", "path": "/verif/amc/kit", "serves_properties": ["C01", "C02", "C03", "C05", "C07", "C14"],
      "kind_free_text": "sequential explicit-state search: BFS over the states of real machines (successor = fresh instance + replayed shortest path + one operation), enumerated schema spaces, reference predicates"},
 ]
 NOTES = "All checks run the real code of /repo rebuilt from its working tree; exit 0 held / 1 unlisted violation / 2 harness error. known-findings.jsonl lists recorded genuine defects (printed as KNOWN-FINDING) and fixed ones (replayed as regressions)."
@@ -55,5 +55,12 @@ LEVELS = {
         "text": "For every reachable state and mutation the tracer sequence must show an auto mutation exactly when due, calling exactly the eligible inactive Auto states, never chained, never after a no-op; inside the auto transition every called Auto state is judged on its own (relations / own handlers), for every enumerated veto assignment.",
         "design_ref": "DESIGN.md section 5 C07",
         "note": "Trusted: reference predicate expectedAuto() written from the statement. Generous reading of relation-based rejection (documented in evidence assumptions).",
+    },
+    "C14": {
+        "engine": "SEQ",
+        "technique": "explicit-state model checking of whole histories with two independent recording tracers; grammar, chaining and time oracles",
+        "text": "Every history (BFS path + one operation) over the enumerated schemas is run on a fresh machine with two tracers attached from the start; per tracer the callback grammar (Init Start Finals? End per transition, contiguous), Finals iff accepted, before/after chaining, TimeAfter == machine time at TransitionEnd, canceled/check => no change, last report == final time, and equality of the two tracers' sequences are checked.",
+        "design_ref": "DESIGN.md section 5 C14",
+        "note": "Trusted: nothing beyond the harness tracer itself. The dbg/history tracers named in the anchors are exercised by C16/C17.",
     },
 }
